@@ -303,7 +303,7 @@ def generate(rng, tier):
     out = []
     L = 2 if tier == 'quick' else 3
     out += [{'kind': 'value', 'v': vs(s)} for s in exhaustive_strings(L)]
-    nval, nstmt, ndb = (2500, 1800, 160) if tier == 'quick' else (30000, 20000, 1500)
+    nval, nstmt, ndb = (5000, 3000, 300) if tier == 'quick' else (30000, 20000, 1500)
     for _ in range(nval):
         r = rng.random()
         if r < 0.6:
